@@ -78,3 +78,8 @@ CHECKS["C20"] = {
   "note": "CPU contexts; classes importable through a synthetic module or a generated module file; fitting writes.",
   "technique": "property-based round-trip testing (pickle) with a value model and an allocator differential (original vs unpickled buffer)",
 }
+CHECKS["C08"] = {
+  "text": "Exploration: model-based histories (<=14 steps quick, <=40 thorough) on generated reference-bearing holder types (Ref/UnionRef fields, arrays of references, references nested below arrays/structs/references) in a traced, poisoned buffer of either CPU kind: construct stand-alone objects (holder's buffer, other buffer, other context, containers for nested targets), bind-to-existing (incl. nested objects), bind-to-value, bind-to-foreign, bind-to-null, write-through-ref, write-through-original, grow / allocate-until-growth, through handles, views or a mix. After every step: holder and all stand-alone objects re-read equal to a shared-value object-graph model (alias vs copy semantics), aliased slots read the bound object's offset and buffer, copies land on offsets handed out by allocate() in the holder's buffer, null raw words, and every non-null slot decoded from raw bytes by the independent layout model resolves inside the buffer into a live allocated region and decodes to the model value; a sixth of the cases also compile the accessor API and compare <T>_typeid/<T>_member.",
+  "note": "Bound objects are of the very class object of the slot's target; no reference cycles; fitting writes.",
+  "technique": "model-based property testing: generated operation histories against an object-graph model and an independent byte-level decoder",
+}
